@@ -308,7 +308,7 @@ afd('on_false_two_deps', cond=0, two=1)
 # Loop bound 3 + the tso model was validated (every model finished well inside the time-out on this 16-core machine) for the
 # scenarios below; every other default-bound scenario keeps loop bound 2 in the thorough tier (still adding the tso model),
 # because bound 3 did not finish within 25 minutes per run when the thorough tier was validated.
-B3_VALIDATED = set(['box_stale_never_matches', 'box_stale_vs_recycle', 'box_three_takers', 'box_two_takers', 'ep_create_during_scan', 'ep_handoff', 'ep_nested', 'ep_reader_twice', 'ep_reader_writer', 'ep_released_not_blocking', 'ep_second_slot', 'ep_two_readers', 'ep_unlocked_not_blocking', 'fu_cb_after', 'fu_cb_before', 'fu_latch', 'fu_ready_get', 'fu_set_cb_get', 'fu_two_callbacks', 'fu_two_getters', 'fu_wait_for', 'fu_wait_for_two', 'fu_wait_for_unset', 'fx_mismatch_no_suspend', 'fx_two_wake_one', 'fx_value_change_vs_new_waiter', 'fx_value_change_vs_second_waiter', 'fx_wake_all_vs_cancel', 'fx_wake_all_vs_new_waiter', 'fx_wake_one_basic', 'fx_wake_one_vs_cancel', 'ht_find', 'ht_same_key', 'id_aba', 'id_aba_reuse', 'id_alloc_free_race', 'id_mint_race', 'id_three', 'pa_alloc_free_x2', 'pa_one_thread_cycle', 'rl_basic', 'rl_wrap', 'tp_after_clear', 'tp_batch_across_block_boundary', 'tp_batch_pub', 'tp_pub_close_consume', 'tp_submit_then_stop', 'tp_two_tasks', 'tp_two_workers', 'vec_gc_cooling', 'vec_same_index', 'vec_stable_under_growth'])
+B3_VALIDATED = set(['box_stale_never_matches', 'box_stale_vs_recycle', 'box_three_takers', 'box_two_takers', 'ep_create_during_scan', 'ep_handoff', 'ep_nested', 'ep_reader_twice', 'ep_reader_writer', 'ep_released_not_blocking', 'ep_second_slot', 'ep_two_readers', 'ep_unlocked_not_blocking', 'fu_cb_after', 'fu_cb_before', 'fu_latch', 'fu_ready_get', 'fu_set_cb_get', 'fu_two_callbacks', 'fu_two_getters', 'fu_wait_for', 'fu_wait_for_two', 'fu_wait_for_unset', 'fx_mismatch_no_suspend', 'fx_two_wake_one', 'fx_value_change_vs_new_waiter', 'fx_value_change_vs_second_waiter', 'fx_wake_all_vs_cancel', 'fx_wake_all_vs_new_waiter', 'fx_wake_one_basic', 'fx_wake_one_vs_cancel', 'ht_find', 'ht_same_key', 'id_aba', 'id_aba_reuse', 'id_alloc_free_race', 'id_mint_race', 'id_three', 'pa_alloc_free_x2', 'pa_one_thread_cycle', 'rl_basic', 'rl_wrap', 'tp_after_clear', 'tp_batch_pub', 'tp_pub_close_consume', 'tp_submit_then_stop', 'tp_two_tasks', 'tp_two_workers', 'vec_gc_cooling', 'vec_same_index', 'vec_stable_under_growth'])
 for _s in ALL:
     if _s['bound'] == {'quick': 2, 'thorough': 3} and _s['name'] not in B3_VALIDATED: _s['bound'] = {'quick': 2, 'thorough': 2}
 
